@@ -4,6 +4,7 @@ import os, sys, random, json, re, shutil
 from concurrent.futures import ThreadPoolExecutor
 sys.path.insert(0, os.path.dirname(os.path.abspath(__file__)))
 from vlib import *
+from vlib import sh as sh_
 import gen_decl as D
 PROP = 'C17'
 
@@ -297,6 +298,78 @@ def header_tie(res, decls, cfgs, dist):
     res.coverage['item_headers_compared'] = ncmp
     return ncmp
 
+def coq_shape_text(sh):
+    """the shape as coq/derive/DModel3.v has it: no container codes, plain fields of every type alike"""
+    if sh.kind == 'E': return 'E'
+    out = []
+    for f in sh.fields:
+        st = f.strat
+        if st in ('Pi', 'Po', 'Pe'): out.append('P')
+        elif st == 'K': out.append('K')
+        elif st in ('R', 'Q'): out.append(st + coq_shape_text(f.sub))
+        elif st in ('L', 'U', 'M'): out.append(st)
+        else: out.append(f"N{f.ko}" + coq_shape_text(f.sub))
+    return 'S(' + ','.join(out) + ')'
+
+def shape_tie(res, seed, n, dist):
+    """C17 x C01: the declarations the derive-level workload generator (tools/gen_derive.py: the same rust_types that C01 - C06, C13 - C16 compile)
+    emits for random shapes are parsed by /repo's parser (pd) and by the model; the shape the model's front end assigns
+    (coq/glue/DeclShape.v::shape_of) must be the shape the declaration was generated from"""
+    import gen_derive as GD
+    rng = random.Random(seed + 5)
+    shapes = [(str(i), rng.randrange(2), GD.gen_shape(rng, rng.choice([1, 2, 2, 3]))) for i in range(n)]
+    chunks = []
+    for sid, ko, sh in shapes:
+        out = []
+        if sh.kind == 'S': GD.rust_types(sh, f"T{sid}", out, "Debug, Clone, PartialEq, Difference")
+        chunks.append('\n'.join(out).replace('MAPEQ', 'key_only' if ko else 'key_and_value'))
+    items = [it for ch in chunks for it in derive_items(ch)]
+    crate = os.path.join(WORK, 'pdshape')
+    put(os.path.join(crate, 'Cargo.toml'), '[package]\nname = "pdshape"\nversion = "0.0.0"\nedition = "2021"\n[workspace]\n[dependencies]\npd = { path = "/verif/harness/pd" }\n')
+    src = ("#![allow(dead_code, unused_imports, non_camel_case_types, unexpected_cfgs)]\nuse std::collections::*;\nuse pd::DumpParse as Difference;\n"
+           "#[derive(Debug, Clone, PartialEq, Difference)]\npub enum En { A, B(i64), C { x: i64, y: i64 } }\n" + '\n'.join(items) + '\n')
+    put(os.path.join(crate, 'src', 'lib.rs'), src)
+    dump = os.path.join(WORK, 'pdshape.dump')
+    if os.path.exists(dump): os.remove(dump)
+    os.utime(os.path.join(crate, 'src', 'lib.rs'))
+    env = dict(ENV, PD_DUMP=dump)
+    with lock('cargo_' + sha(TARGET)):
+        rc, out = sh_(['cargo', 'check', '--offline', '--quiet'], cwd=crate, env=env, timeout=900)
+    if not os.path.exists(dump) or rc != 0:
+        res.add_broken('correspondence', 'shape harness (pd on the declarations of the derive-level workload) no longer builds against /repo/derive/src', ' | '.join(l for l in out.splitlines() if l.startswith('error'))[:400])
+        return 0
+    drv = build_ocaml(res, 'parse', 'Parse')
+    if not drv: return 0
+    with open(dump, 'a') as f:
+        for sid, ko, sh in shapes: f.write(f"SHAPEOF {'T' + sid if sh.kind == 'S' else 'En'}\n")
+    rc, lines = run_lines([drv, dump], timeout=600)
+    # the same declarations, /repo's parser and attribute readers against the model's (so that shape_of reads what the macro reads)
+    pat = re.compile(r'ITEM (\S+) (PARSED|F?INTERP\d*|FUSED\d+) (.*)')
+    impl_l, model_l = {}, {}
+    for l in open(dump):
+        m = pat.match(l.strip())
+        if m: impl_l[(m.group(1), m.group(2))] = ('UNSUP' if ('UnsupCat' in m.group(3) or ' as)' in m.group(3)) else m.group(3).strip())
+    for l in lines:
+        m = pat.match(l)
+        if m: model_l[(m.group(1), m.group(2))] = m.group(3).strip()
+    bad = [(k, v, model_l.get(k)) for k, v in impl_l.items() if model_l.get(k) != v]
+    if bad:
+        (nm, tag), v, mv = bad[0]
+        res.add_broken('correspondence', "Coq model of the declaration parser / attribute readers differs from derive/src on a declaration of the derive-level workload", f"item {nm} {tag}: model {str(mv)[:200]} | impl {v[:200]}")
+    res.coverage['workload_declaration_readings_compared'] = len(impl_l)
+    got = [l.split(' ', 2) for l in lines if l.startswith('SHAPEOF ')]
+    want = [('T' + sid if sh.kind == 'S' else 'En', coq_shape_text(sh)) for sid, ko, sh in shapes]
+    nd = 0
+    for (name, w), g in zip(want, got + [None] * len(want)):
+        if g is None or g[1] != name or g[2] != w:
+            nd += 1
+            if nd == 1:
+                res.add_broken('correspondence', "the shape the model's front end assigns to a declaration of the derive-level workload (DeclShape.shape_of) is not the shape the declaration was generated from",
+                               f"type {name}: generated from {w}, shape_of says {g[2] if g else 'nothing'}")
+    res.coverage['workload_declarations_shape_checked'] = len(want) - nd
+    dist['shape_tie_declarations'] = len(items)
+    return len(want)
+
 def main():
     a = std_args()
     res = Result(PROP, a.tier, a.seed)
@@ -364,6 +437,7 @@ def main():
     # the item headers of the expansion of every declaration above, per feature set of the derive crate
     k = (a.seed or 0) % 3
     header_tie(res, decls + cd, HEADER_CFGS if a.tier == 'thorough' else [HEADER_CFGS[0], HEADER_CFGS[1], HEADER_CFGS[2 + k]], dist)
+    shape_tie(res, a.seed, 60 if a.tier == 'quick' else 400, dist)
     # known-bad constructs, each on its own
     def try_known(item):
         kid, (desc, src) = item
